@@ -252,6 +252,15 @@ def rule_propagation(ck: Check, repo: Repo, qual: str, rid: str, full: bool) -> 
             out["deprecated"] = v("each (name, path) in project.licenses.items()::deprecated") if out["in_map"] else False
         return out
 
+    # the effect table is stated per result of ONE loop over the results; a generate() that walks them several times
+    # (a comprehension for the reports, a second loop for the errors) needs a per-result union of several loops that this
+    # rule does not compute: not decided (exit 2) rather than compared with the wrong shape
+    res_loops = [n for n in ast.walk(fn) if isinstance(n, ast.For) and ast.unparse(n.iter) in ("results", "sorted(results)", "list(results)")]
+    res_comps = [n for n in ast.walk(fn) if isinstance(n, (ast.SetComp, ast.ListComp, ast.GeneratorExp, ast.DictComp))
+                 and any(ast.unparse(g.iter) == "results" for g in n.generators)]
+    if len(res_loops) != 1 or res_comps:
+        raise AnalysisError(f"{qual.split('.')[-2]}.generate walks the results {len(res_loops)} time(s) in a loop and {len(res_comps)} time(s) in a"
+                            " comprehension: the per-result effect table is stated for a single loop (shape not enumerated)")
     leaves = tabulate(fn, hooks, ref)
     r.floor(2 if not full else 6, "paths through generate", got=len(leaves))
     for d, leaf, spec in leaves:
